@@ -80,10 +80,50 @@ NEEDS3 = {
  'C18a': 'an hour value whose nanosecond product wraps back into the positive range (5124096H, 10248192H, ...): a short deadline instead of saturation',
  'C18b': 'a well-formed zero timeout (0S, 0n, 00000000H, or a repeated header whose last value is zero): no deadline at all instead of an already expired one',
 }
+NEEDS4 = {
+ 'C01a': 'flow control, a window-limited sender and a window update landing between the sender\'s load and its compare-and-swap: the retry skips a chunk, the message arrives truncated while send reports success',
+ 'C01b': 'a zero-byte message received into a message value that was used before: decoding is skipped, the previous content is reported',
+ 'C02a': 'a streaming call through AsChannel() / KeyAsChannel() (reverse tunnels): call options are dropped, so grpc.Header / grpc.Trailer targets stay untouched and per-RPC credentials never reach the handler',
+ 'C02b': 'per-RPC credentials whose key also exists in the outgoing context: the context\'s values are replaced (Set instead of Append)',
+ 'C03a': 'the window exhausted exactly, twice, with no wait in between (two messages of exactly 65536 bytes): the wake-up token send blocks the receive loop',
+ 'C03b': 'GracefulStop with a tunnel still served, then a new RPC or Stop: GracefulStop waits for Serve while holding the server mutex, createStream blocks in isClosing()',
+ 'C04a': 'a client-streaming / unary-via-NewStream call that has its response and awaits the close frame when the tunnel terminates: success instead of a non-OK result',
+ 'C04b': 'GracefulStop with a handler in flight, then Stop: Stop returns early in state closing and never half-closes the tunnel',
+ 'C05a': 'traffic in both directions over a transport that buffers one frame: the window update is sent while the receiver lock is held, the receive loops block behind each other',
+ 'C05b': 'a unary or client-streaming call whose response is 65537 bytes or more: the client never returns credit for single-response calls, the server\'s sender is stranded after 64 KiB',
+ 'C06a': 'a revision-one peer that advertises an initial window of zero: the sender substitutes 64 KiB and sends data that was never credited',
+ 'C06b': 'a peer overruns a stream whose handler is blocked in SendMsg: the handler\'s context error wins, the RPC is closed with Unknown instead of ResourceExhausted',
+ 'C07a': 'cancel landing after RecvMsg has taken the response and before the close frame, on a non-server-streaming RPC driven through NewStream: success with empty trailers',
+ 'C07b': 'flow control, unread responses queued at the caller when the cancel falls: RecvMsg keeps returning the stale data with nil error before reporting Canceled',
+ 'C08a': 'a raw peer re-using the most recently finished id while it is still the greatest seen: accepted as a new stream, the handler runs a second time',
+ 'C08b': 'Stop() half-closes the tunnel, then the still-connected peer sends new_stream 5 followed by new_stream 3: Serve returns no error',
+ 'C09a': 'an envelope announcing up to 4 GiB followed by one byte: the server allocates the announced size',
+ 'C09b': 'a window_update for a revision-zero stream: panic on the receive loop',
+ 'C10a': 'GracefulStop while a tunnel is still served, then a new RPC: never refused, hangs (mutex held while waiting); Stop afterwards deadlocks',
+ 'C10b': 'after shutdown, a unary Invoke whose refusal is processed before the caller reaches SendMsg: bare context canceled instead of Unavailable',
+ 'C11a': 'negotiation advertised by both ends and exactly one end with flow control disabled: flow-controlled sender/receiver on a revision-zero tunnel',
+ 'C11b': 'a reverse tunnel opened to a legacy network server that does not advertise negotiation: a settings frame is sent anyway',
+ 'C12a': 'at least two tunnels, RPCs that advance the round-robin cursor, a shrink that leaves len <= idx, then another RPC: index out of range',
+ 'C12b': 'a tunnel that dies during registration (while the AffinityKey function runs): a close callback without a preceding open callback',
+ 'C13a': 'revision zero and a message whose size is an exact non-zero multiple of 16384: an extra empty continuation frame',
+ 'C13b': 'a network client that sends the grpctunnel-negotiate header with a value other than "on": a settings frame although nothing was negotiated',
+ 'C14a': 'a handler parked in RecvMsg with an empty queue whose context ends with no cancel / half-close frame reaching the server (tunnel ends, server-side deadline): it re-waits for ever',
+ 'C14b': 'a unary-shaped call against a peer that sends two responses and keeps the stream open: the Internal error is returned but the stream is never cancelled, entries and goroutines stay',
+ 'C15a': 'transport pushing back in both directions with full-duplex RPCs: window update sent under the receiver mutex, lock cycle',
+ 'C15b': 'Stop() of a reverse-tunnel server while handlers send: CloseSend on the raw carrier stream without the send mutex',
+ 'C16a': 'a raw peer sending message, message, half-close in a burst (or a handler that reads late) on a non-streaming-request method: the look-ahead is skipped once half-closed',
+ 'C16b': 'unary Invoke and a peer that ends the call with OK and no response: Invoke returns nil with the response untouched',
+ 'C17a': 'a reverse tunnel: the recorded tunnel metadata lacks the grpctunnel-negotiate pair the library adds, so it disagrees with what the server received',
+ 'C17b': 'an RPC with no request metadata over a forward tunnel: it inherits the tunnel-opening call\'s incoming metadata',
+ 'C18a': 'a well-formed grpc-timeout of zero: no deadline at all instead of one that is already due',
+ 'C18b': 'a grpc-timeout deadline firing while a streaming handler is blocked in RecvMsg with an empty queue (flow control) and the client neither sends nor cancels: the handler is never handed DeadlineExceeded',
+}
 if ROUND == 3:
     NEEDS = NEEDS3
+if ROUND == 4:
+    NEEDS = NEEDS4
 conf = {}
-for f in (('confirm2.log', 'confirm2b.log') if ROUND == 2 else ('confirm%d.log' % ROUND,)):
+for f in (('confirm2.log', 'confirm2b.log') if ROUND == 2 else ('confirm%d.log' % ROUND, 'confirm%db.log' % ROUND)):
     p = os.path.join(V, 'work', f)
     if os.path.exists(p):
         for line in open(p):
@@ -96,7 +136,7 @@ for key, (suite, w, wo) in sorted(conf.items()):
         print('rejected', key, suite, w, wo)
         continue
     pid, v = key[:3], key[3]
-    nv = {2: {'a': 'c', 'b': 'd'}, 3: {'a': 'e', 'b': 'f'}}[ROUND][v]
+    nv = {2: {'a': 'c', 'b': 'd'}, 3: {'a': 'e', 'b': 'f'}, 4: {'a': 'g', 'b': 'h'}}[ROUND][v]
     d = os.path.join(V, 'seeded', pid + nv)
     os.makedirs(d, exist_ok=True)
     src = os.path.join(V, 'work', 'mut%dkeep' % ROUND, pid)
